@@ -88,8 +88,9 @@ TEmit ==
        /\ Report("TimerBound",
                  timeout < 0 \/ \A id \in Ids(b) \cap DOMAIN acceptT : TimelyOK(E.t, acceptT[id], timeout, slack),
                  <<E.t, timeout, slack>>)
+       /\ Report("CardinalityRefused", CardinalityOK(EmittedGroups \cup {b.md}, conf), EmittedGroups \cup {b.md})
        /\ emitted' = Append(emitted, b)
-  /\ nchecks' = nchecks + 6
+  /\ nchecks' = nchecks + 7
   /\ UNCHANGED <<offered, status, phase, sid, conf, timeout, slack, acceptT>>
 
 \* single-producer scripts: after every produce the driver waited for quiescence
